@@ -18,7 +18,7 @@ store included; (O6) no deadlock/exception; a failing schedule is replayed once 
 import itertools
 
 from ..aloop import Chooser, ReplayDivergence, explore, first_level
-from ..drive import VL, Impl, install_virtual_loop
+from ..drive import VL, Impl, install_virtual_loop, lock_held, queue_len
 from ..env import CUR, Plan
 from ..machines import GENERIC, ring3
 from ..par import BlockResult, Hang, deadline, run_blocks
@@ -141,11 +141,9 @@ def check(env, sm, sender_tags, errors, deadlock, init_value="s0"):
             if pos[x] > pos[y]:
                 return f"O3 sender order: {y} processed before {x}"
     # O4 nothing stranded
-    eng = sm._engine
-    pr = eng._processing
-    locked = pr.locked() if hasattr(pr, "locked") else bool(pr)
-    if len(eng._external_queue) or locked:
-        return (f"O4 stranded: queue length {len(eng._external_queue)}, lock held {locked} after "
+    qlen, locked = queue_len(sm), lock_held(sm)
+    if qlen or locked:
+        return (f"O4 stranded: queue length {qlen}, lock held {locked} after "
                 f"all senders returned")
     # O5 sequential consistency along the observed processing order
     cur = 0
@@ -200,11 +198,9 @@ def check_anon(env, sm, n_sends, errors, deadlock):
         if r.seq_begin < last_end:
             return f"O1 overlap at {r.brief()}"
         last_end = r.seq_end
-    eng = sm._engine
-    pr = eng._processing
-    locked = pr.locked() if hasattr(pr, "locked") else bool(pr)
-    if len(eng._external_queue) or locked:
-        return f"O4 stranded: queue length {len(eng._external_queue)}, lock held {locked}"
+    qlen, locked = queue_len(sm), lock_held(sm)
+    if qlen or locked:
+        return f"O4 stranded: queue length {qlen}, lock held {locked}"
     if sm.current_state_value != f"s{n_sends % 3}":
         return f"O5 final state {sm.current_state_value}, expected s{n_sends % 3}"
     return None, ("anon", n_sends)
@@ -244,11 +240,9 @@ def check_gated(env, sm, sends, errors, deadlock):
         observed[-1][4].append(r.cid[1])
         if r.seq_end > last_end:
             last_end, last = r.seq_end, r.tag
-    eng = sm._engine
-    pr = eng._processing
-    locked = pr.locked() if hasattr(pr, "locked") else bool(pr)
-    if len(eng._external_queue) or locked:
-        return f"O4 stranded: queue length {len(eng._external_queue)}, lock held {locked}"
+    qlen, locked = queue_len(sm), lock_held(sm)
+    if qlen or locked:
+        return f"O4 stranded: queue length {qlen}, lock held {locked}"
     final = sm.current_state_value
     obs_eff = [(t, src, dst) for (t, _ev, src, dst, _n) in observed]
     for perm in itertools.permutations(sends):
@@ -341,6 +335,10 @@ def run_async(ch, events, nested, pre_activate):
 
 # -- thread half --------------------------------------------------------------------------------
 
+class InternalsChanged(Exception):
+    pass
+
+
 class _AsyncOnly:
     async def after_transition(self):
         return None
@@ -363,6 +361,9 @@ def run_threads(ch, events, nested, files, only_lines=None, stateful=False):
         tags = [[("same" if anon else f"S{i}.{k}") for k in range(len(evs))]
                 for i, evs in enumerate(events)]
         sm = impl.sm
+        if stateful and (queue_len(sm) is None or lock_held(sm) is None):
+            # the hashed state would miss the queue / the lock: pruning would be unsound
+            raise InternalsChanged("engine queue/lock are not where the pinned tree keeps them")
 
         progress = [0] * len(events)
 
@@ -389,10 +390,9 @@ def run_threads(ch, events, nested, files, only_lines=None, stateful=False):
 
         def state_fn():
             eng = sm._engine
-            pr = eng._processing
             return (tuple(progress),
                     tuple(td.kwargs.get("tag") for td in eng._external_queue),
-                    pr.locked() if hasattr(pr, "locked") else bool(pr),
+                    lock_held(sm),
                     repr(sm.current_state_value),
                     tuple((r.tag, r.cid[1], r.ended) for r in env.flat),
                     tuple(sorted(env.fired.items())),
@@ -446,6 +446,10 @@ def explore_stateful(res, vi, variant, tier, coarse):
     cap = 40000 if tier == "quick" else 400000
     try:
         stt = explore(run_fn, bound=None, seen={}, max_execs=cap)
+    except InternalsChanged as e:
+        res.notes.append(f"explicit-state exploration of variant {vi} skipped: {e}; the "
+                         f"preemption-bounded exploration still covers it")
+        return
     except ReplayDivergence as e:
         res.violation({"category": "replay-divergence", "half": "threads-stateful"},
                       {"half": "threads-stateful", "variant": vi}, f"harness: {e}")
